@@ -231,8 +231,10 @@ void harness(void)
 	if (ret != 0)
 		VERIF_ASSERT(g_stderr_msgs > 0, "C06.attribs.failure_reported");
 
+#if NNODES > 1
 	VERIF_COVER(ret == 0 && g_used[NNODES - 1] && g_n_chmod > 0 &&
 		    g_n_chown > 0 && g_n_times > 0 && g_n_xattr > 0);
+#endif
 	VERIF_COVER(ret == -1);
 	VERIF_COVER(ret == 0 && g_nsys == 0 && flags != 0);
 #if NNODES > 1
